@@ -1,35 +1,32 @@
 """C05 - parsing a FmtStr's terminal string gives the same FmtStr back (DESIGN.md section 3, C05: R1..R8)."""
-import ast
-import itertools
-
 from .. import sgr
-from ..absint import Interp
-from ..consteval import Folder
-from ..models import FromStrFold, Reader, Writer, T
+from ..fold import new_interp
+from ..models import FromStr, Reader, Writer, T, T2, cells
 from ..report import AnalysisError
-from ..srcmodel import unparse
 from . import tokenizer
 
 EXPLANATION = (
-    "R1 reader table: token_type is abstractly interpreted (constant-propagation domain) for every SGR code 0..107 and "
-    "for parameter lists (empty, singles, all ordered pairs, all a;b;a triples; thorough: all triples) of the supported "
-    "codes; applying the extracted updates in order to probe states must equal the effect of an independent ECMA-48 SGR "
-    "machine.  R2 fold: the token loop of FmtStr.from_str is extracted as a transition function and checked on probe "
-    "states: an update token changes exactly its keys and emits nothing, a text token emits exactly one run whose "
-    "attributes are the non-None entries (through parse_args), the result is FmtStr(*runs) in order.  R3 model round "
-    "trip: for every attribute set of C01's enumeration, writer stream -> tokens -> reader table -> fold gives one run "
-    "with exactly the set's truthy attributes and ends with every attribute reset, so adjacent runs compose.  R4 the "
-    "number->name tables invert the name->number tables.  R5-R8 tokenizer: both patterns are total (DOTALL), partition "
-    "their input, recognise (regular-language inclusion on DFAs built from the patterns' syntax trees) every sequence "
-    "the writer emits and every ordinary numeric CSI as one token, only ever take tokens that begin with ESC/0x9b, the "
-    "CSI match wins ties; parse() alternates text and updates in order."
+    "R1 reader: token_type is abstractly interpreted (constant-propagation domain, structure independent) for every SGR code "
+    "0..107 and for parameter lists (empty, singles, all ordered pairs, all a;b;a triples; thorough: all triples) of the "
+    "supported codes; applying the resulting updates in order to probe states must equal the effect of an independent "
+    "ECMA-48 SGR machine; repeated evaluation gives the same answers (no state carried between calls).  R2 fold: "
+    "FmtStr.from_str is interpreted with parse() stubbed to return chosen token lists: an update token changes exactly its "
+    "keys (None = reset), every text token comes out as one run with the non-None attributes (mapped through parse_args), "
+    "runs come out complete and in order.  R3 model round trip: for every attribute set of C01's enumeration, writer "
+    "stream -> tokens -> reader -> from_str gives one run with exactly the set's truthy attributes and a following run is "
+    "unformatted (fully reset), so adjacent runs compose.  R4 the number->name tables invert the name->number tables.  R5 "
+    "tokenizer: both patterns (resolved through re.compile if pre-compiled) are total (DOTALL), partition their input, "
+    "recognise (regular-language inclusion on DFAs) every sequence the writer emits and every ordinary numeric CSI as one "
+    "token, only take tokens that begin with ESC/0x9b; the function's case analysis (CSI wins ties, earlier two-byte "
+    "sequence first, no match, parameter forms, newlines) is decided on one representative input per case.  R6 parse() "
+    "alternates text and updates completely and in order (representative inputs incl. line-boundary characters and an 8-bit "
+    "CSI in the tail).  S the memoised terminal string cannot go stale."
 )
 NOT_DECIDED = ("behaviour of re.match itself; that the terminal string contains no ESC in its text (excluded by C01's "
                "quantifier); interaction with unsupported codes (C17).")
 
 
 def _semantic(fmt, names):
-    """running-format dict (names / True / None) -> reference state"""
     fgc, bgc, sty = names
     fg = fgc.get(fmt.get("fg")) if fmt.get("fg") is not None else None
     bg = bgc.get(fmt.get("bg")) if fmt.get("bg") is not None else None
@@ -44,7 +41,7 @@ def _apply_updates(fmt, updates):
     return fmt
 
 
-def rule_r1(src, rep, fold, reader, names, counts):
+def rule_r1(src, rep, reader, names, counts):
     f = reader.f
     fgc, bgc, sty = names
     inv_fg = {v: k for k, v in fgc.items()}
@@ -58,7 +55,7 @@ def rule_r1(src, rep, fold, reader, names, counts):
         kind, val = reader.token("m", [c])
         supported = c in sgr.SUPPORTED
         if kind == "opaque":
-            raise AnalysisError("token_type is outside the decision-list subset for code %d: %s" % (c, val))
+            raise AnalysisError("token_type is outside the evaluated subset for code %d: %s" % (c, val))
         if supported:
             n_codes += 1
             ok = kind == "ok" and isinstance(val, list) and all(isinstance(u, dict) for u in val)
@@ -70,7 +67,6 @@ def rule_r1(src, rep, fold, reader, names, counts):
                     if got != want:
                         ok = False
                         why = "SGR %d read as %s: from state %s it gives %s, a terminal shows %s" % (c, val, pstate, got, want)
-                # unknown keys in an update would be rejected later by parse_args
                 if ok:
                     bad = [k for u in val for k in u if k not in ("fg", "bg") and k not in sty]
                     if bad:
@@ -79,13 +75,11 @@ def rule_r1(src, rep, fold, reader, names, counts):
                    witness={"code": c, "reader": str(val)})
             rep.case(True, {"code": c, "updates": str(val)} if c in (0, 31, 49) else None)
         else:
-            # unsupported codes must not be silently read as something
             ok = kind == "raise" or (kind == "ok" and not val)
-            rep.ob("R1-unsupported-code-not-misread", f.where(), f.scope, "SGR %d -> %s %s" % (c, kind, val if kind != "ok" else val), ok,
+            rep.ob("R1-unsupported-code-not-misread", f.where(), f.scope, "SGR %d -> %s %s" % (c, kind, val), ok,
                    "unsupported code %d is read as %s" % (c, val))
             rep.case(False)
     counts["supported_codes"] = n_codes
-    # parameter lists
     S = sgr.SUPPORTED
     seqs = [[]] + [[a] for a in S] + [[a, b] for a in S for b in S] + [[a, b, a] for a in S for b in S if a != b]
     if rep.tier == "thorough":
@@ -95,153 +89,144 @@ def rule_r1(src, rep, fold, reader, names, counts):
     for seq in seqs:
         kind, val = reader.token("m", seq)
         if kind == "opaque":
-            raise AnalysisError("token_type is outside the decision-list subset for parameters %s: %s" % (seq, val))
+            raise AnalysisError("token_type is outside the evaluated subset for parameters %s: %s" % (seq, val))
         for p, pstate in probes:
             want = sgr.apply_params(pstate, seq)
-            got = _semantic(_apply_updates(p, val), names) if kind == "ok" else None
+            got = _semantic(_apply_updates(p, val), names) if kind == "ok" and isinstance(val, list) else None
             if got != want:
                 nbad += 1
                 if bad is None:
-                    bad = (seq, pstate, got if kind == "ok" else "%s %s" % (kind, val), want)
+                    bad = (seq, pstate, got if got is not None else "%s %s" % (kind, val), want)
         rep.case(bool(seq), {"params": seq, "updates": str(val)[:120]} if len(seq) == 3 and seq[0] == 31 and seq[1] == 0 else None)
     rep.ob("R1-parameter-lists-in-order", f.where(), f.scope, "%d parameter lists x %d probe states" % (len(seqs), len(probes)),
            bad is None, "ESC[%sm from state %s is read as %s, a terminal shows %s (%d deviating cases)"
            % ((";".join(map(str, bad[0])),) + bad[1:] + (nbad,)) if bad else "",
            witness={"params": bad[0], "from_state": str(bad[1]), "reader": str(bad[2]), "terminal": str(bad[3])} if bad else None)
     counts["parameter_lists"] = len(seqs)
+    # repeated evaluation gives the same answer (no state carried between calls)
+    order = ([0, 1, 31], [0], [], [1], [0], [39], [0, 44], [0])
+    reader.memo.clear()
+    again = [reader.token("m", s) for s in order]
+    reader.memo.clear()
+    again2 = [reader.token("m", s) for s in order]
+    rep.ob("R1-reader-is-stateless", f.where(), f.scope, "token_type on %s, twice" % (order,),
+           again == again2 and again[1] == again[4] == again[7],
+           "token_type gives different answers for the same parameters depending on what it parsed before (first pass %s, second "
+           "pass %s): a shared table or token object is mutated" % (again, again2))
 
 
-def rule_r2(src, rep, fold, fsf, names, counts):
-    f = fsf.f
+def _expected_atts(state, names):
     fgc, bgc, sty = names
-    inv_fg = {v: k for k, v in fgc.items()}
-    inv_bg = {v: k for k, v in bgc.items()}
-    states = [{}, {"fg": "red"}, {"fg": "red", "bg": "blue"}, {"fg": None, "bg": "blue", "bold": True},
-              dict({k: True for k in sty}, fg="green", bg="red"), dict({k: None for k in sty}, fg=None, bg=None)]
-    updates = [{"fg": "blue"}, {"bg": "cyan"}, {"bold": True}, {"fg": None}, {"bg": None}, {"bold": None},
-               dict({k: None for k in sty}, fg=None, bg=None), {}]
-    n = 0
-    for st in states:
-        for u in updates:
-            n += 1
-            r = fsf.step(st, u)
-            if r[0] == "opaque":
-                raise AnalysisError("from_str loop body: %s" % r[1])
-            want = dict(st)
-            want.update(u)
-            ok = r[0] == "ok" and _nn(r[1]) == _nn(want) and r[2] == []
-            rep.ob("R2-update-token-updates-exactly-its-keys", f.where(fsf.loop), f.scope,
-                   "state %s + token %s" % (_short(st), _short(u)), ok,
-                   "an update token must change exactly its own keys of the running format and emit no run; got %s"
-                   % (r[1:] if r[0] == "ok" else r,), witness={"state": st, "token": u, "result": str(r)})
-        r = fsf.step(st, T)
-        if r[0] == "opaque":
-            raise AnalysisError("from_str loop body: %s" % r[1])
-        n += 1
-        exp_atts = {}
-        for k, v in st.items():
-            if v is None:
-                continue
-            exp_atts[k] = fgc[v] if k == "fg" else bgc[v] if k == "bg" else v
-        ok = r[0] == "ok" and _nn(r[1]) == _nn(st) and len(r[2]) == 1 and _chunk_eq(r[2][0], T, exp_atts)
-        rep.ob("R2-text-token-emits-one-run", f.where(fsf.loop), f.scope, "state %s + text" % _short(st), ok,
-               "a text piece must leave the running format alone and emit exactly one run carrying the non-None attributes "
-               "%s; got %s" % (exp_atts, r[1:] if r[0] == "ok" else r,), witness={"state": st, "result": str(r)})
-    ok, outs = fsf.result_is_all_runs()
-    rep.ob("R2-result-is-all-runs-in-order", f.where(fsf.loop), f.scope, "return FmtStr(*chunks)", ok,
-           "from_str must return FmtStr(*runs) with every emitted run in order; got %s" % outs)
-    # the loop iterates over parse(<the parameter>)
-    calls = [n for n in f.own_nodes() if isinstance(n, ast.Call) and unparse(n.func) == "parse"]
-    ok = len(calls) == 1 and len(calls[0].args) == 1 and unparse(calls[0].args[0]) == f.params()[0]
-    asg = f.module.parent.get(calls[0]) if calls else None
-    ok = ok and isinstance(asg, ast.Assign) and unparse(asg.targets[0]) == fsf.iter_name
-    rep.ob("R2-loop-over-parse-of-input", f.where(calls[0]) if calls else f.where(), f.scope,
-           "%s = parse(%s)" % (fsf.iter_name, f.params()[0]), ok, "the fold must run over parse(<input>) unchanged")
-    counts["fold_transitions"] = n
-
-
-def _nn(d):
-    """semantic view of a running format: entries that are set (None means 'reset')"""
-    return {k: v for k, v in d.items() if v is not None}
-
-
-def _chunk_eq(ch, text, atts):
-    if not (isinstance(ch, tuple) and ch and ch[0] == "<Chunk>"):
-        return False
-    pos = [x for x in ch[1:] if not (isinstance(x, tuple) and len(x) == 2 and x[0] in ("atts", "string"))]
-    kw = dict(x for x in ch[1:] if isinstance(x, tuple) and len(x) == 2 and x[0] in ("atts", "string"))
-    s = kw.get("string", pos[0] if pos else None)
-    a = kw.get("atts", pos[1] if len(pos) > 1 else None)
-    return s == text and isinstance(s, type(text)) and dict(a or {}) == atts
+    out = {}
+    for k, v in state.items():
+        if v is None:
+            continue
+        out[k] = fgc[v] if k == "fg" else bgc[v] if k == "bg" else v
+    return out
 
 
 def _short(d):
     return "{" + ", ".join("%s: %s" % (k, v) for k, v in d.items()) + "}" if len(d) <= 3 else "{%d keys}" % len(d)
 
 
-def rule_r3(src, rep, fold, writer, reader, fsf, names, counts):
+def rule_r2(src, rep, fs, names, counts):
+    f = fs.f
     fgc, bgc, sty = names
-    n = bad = 0
-    first = {}
+    reset_all = dict({k: None for k in sty}, fg=None, bg=None)
+    states = [{}, {"fg": "red"}, {"fg": "red", "bg": "blue"}, {"fg": None, "bg": "blue", "bold": True},
+              dict({k: True for k in sty}, fg="green", bg="red"), dict(reset_all)]
+    updates = [{"fg": "blue"}, {"bg": "cyan"}, {"bold": True}, {"fg": None}, {"bg": None}, {"bold": None}, dict(reset_all), {}]
+    n = 0
+    for st in states:
+        for u in updates:
+            n += 1
+            r = fs.run([dict(st), dict(u), T])
+            if r[0] == "opaque":
+                raise AnalysisError("from_str outside the evaluated subset: %s" % r[1])
+            want_state = dict(st)
+            want_state.update(u)
+            exp = [(T, _expected_atts(want_state, names))]
+            rep.case(True)
+            rep.ob("R2-update-token-updates-exactly-its-keys", f.where(), f.scope, "tokens [%s, %s, text]" % (_short(st), _short(u)),
+                   r[0] == "ok" and cells(r[1]) == cells(exp),
+                   "after the updates %s then %s the text must carry exactly %s; from_str gives %s" % (st, u, exp[0][1], r[1] if r[0] == "ok" else r,),
+                   witness={"tokens": [st, u, "text"], "result": str(r)})
+        for label, toks, exp in (
+                ("text, text", [dict(st), T, T2], [(T, _expected_atts(st, names)), (T2, _expected_atts(st, names))]),
+                ("text, update, text", [T, dict(st), T2], [(T, {}), (T2, _expected_atts(st, names))]),
+                ("text, empty update, text", [dict(st), T, {}, T2], [(T, _expected_atts(st, names)), (T2, _expected_atts(st, names))])):
+            n += 1
+            r = fs.run(toks)
+            if r[0] == "opaque":
+                raise AnalysisError("from_str outside the evaluated subset: %s" % r[1])
+            rep.case(True)
+            rep.ob("R2-every-text-token-is-one-run-in-order", f.where(), f.scope, "%s with state %s" % (label, _short(st)),
+                   r[0] == "ok" and cells(r[1]) == cells(exp),
+                   "every text piece must come out as its own run, in order, with the formatting in force at that point; expected %s, "
+                   "from_str gives %s" % (exp, r[1] if r[0] == "ok" else r,), witness={"tokens": str(toks), "result": str(r)})
+    counts["fold_cases"] = n
+
+
+def rule_r3(src, rep, writer, reader, fs, names, counts):
+    from ..par import pmap
+    sets = []
     for fg, bg, styles in sgr.attribute_sets(rep.tier):
         atts = dict(styles)
         if fg is not None:
             atts["fg"] = fg
         if bg is not None:
             atts["bg"] = bg
+        sets.append(atts)
+
+    def one(atts):
         want = {k: v for k, v in atts.items() if v}
-        n += 1
         stream = writer.stream(atts)
-        problem = None
-        runs = []
-        fmt = {}
         if stream is None:
-            problem = "the writer model is not deterministic for this set (see C01)"
-        else:
-            for t in sgr.tokenize(stream):
-                if t[0] == "JUNK":
-                    problem = "writer emits junk %r" % t[1]
-                    break
-                if t[0] == "TEXT":
-                    toks = [T]
-                else:
-                    kind, val = reader.token("m", t[1])
-                    if kind == "opaque":
-                        raise AnalysisError("token_type outside the subset for %s: %s" % (t[1], val))
-                    if kind != "ok":
-                        problem = "reader rejects the writer's own sequence ESC[%sm: %s %s" % (";".join(map(str, t[1])), kind, val)
-                        break
-                    toks = val
-                for tk in toks:
-                    r = fsf.step(fmt, tk)
-                    if r[0] == "opaque":
-                        raise AnalysisError("from_str loop body: %s" % r[1])
-                    if r[0] != "ok":
-                        problem = "fold fails on token %r in state %s: %s" % (tk, fmt, r)
-                        break
-                    fmt = r[1]
-                    runs.extend(r[2])
-                if problem:
-                    break
-        if problem is None:
-            if len(runs) != 1 or not _chunk_eq(runs[0], T, want):
-                problem = "round trip gives runs %s, expected one run with %s" % (runs, want)
-            elif any(v is not None for v in fmt.values()):
-                problem = "after the run the reader's running format is %s, not fully reset: the next run inherits it" % fmt
+            return ("the writer model is not deterministic for this set (see C01)", stream, None)
+        toks = []
+        for t in sgr.tokenize(stream):
+            if t[0] == "JUNK":
+                return ("writer emits junk %r" % t[1], stream, None)
+            if t[0] == "TEXT":
+                toks.append(T)
+            else:
+                kind, val = reader.token("m", t[1])
+                if kind == "opaque":
+                    return ("OPAQUE token_type outside the subset for %s: %s" % (t[1], val), stream, None)
+                if kind != "ok" or not isinstance(val, list):
+                    return ("reader rejects the writer's own sequence ESC[%sm: %s %s" % (";".join(map(str, t[1])), kind, val), stream, None)
+                toks.extend(val)
+        r = fs.run(toks + [T2])
+        if r[0] == "opaque":
+            return ("OPAQUE from_str outside the evaluated subset: %s" % r[1], stream, None)
+        if r[0] != "ok":
+            return ("from_str raises %s on the writer's own output" % r[1], stream, str(r))
+        if cells(r[1]) != cells([(T, want), (T2, {})]):
+            if cells(r[1])[:1] != cells([(T, want)]):
+                return ("round trip gives runs %s, expected one run with %s" % (r[1][:1], want), stream, str(r))
+            return ("text after the run comes out as %s: the reader's state is not fully reset, the next run inherits it" % (r[1][1:],), stream, str(r))
+        return (None, stream, str(r))
+    results = pmap(one, sets)
+    n = bad = 0
+    first = {}
+    for atts, (problem, stream, r) in zip(sets, results):
+        n += 1
+        if problem and problem.startswith("OPAQUE"):
+            raise AnalysisError(problem[7:])
         if problem:
             bad += 1
             key = problem.split(",")[0][:70]
             first.setdefault(key, {"attributes": atts, "stream": (stream or "").replace("\x1b", "ESC").replace(sgr.TEXT, "<text>"),
                                    "problem": problem})
-        rep.case(bool(want), {"attributes": atts, "runs": str(runs)} if n % 1303 == 1 else None)
+        rep.case(any(atts.values()), {"attributes": atts, "runs": r} if n % 1303 == 1 else None)
     rep.exhaustive = True
-    f = fsf.f
+    f = fs.f
     if bad:
         for key, w in list(first.items())[:5]:
             rep.ob("R3-model-round-trip", f.where(), f.scope, "round trip: %s" % key, False,
                    "%s (attribute set %s); %d deviating sets" % (w["problem"], w["attributes"], bad), witness=w)
     else:
-        rep.ob("R3-model-round-trip", f.where(), f.scope, "writer -> tokens -> reader -> fold over %d attribute sets" % n, True)
+        rep.ob("R3-model-round-trip", f.where(), f.scope, "writer -> tokens -> reader -> from_str over %d attribute sets" % n, True)
     counts["round_trip_sets"] = n
 
 
@@ -252,7 +237,7 @@ def rule_r4(src, rep, fold, counts):
         b = fold.const(C, inv, dict)
         ok = len(set(a.values())) == len(a) and b == {v: k for k, v in a.items()}
         rep.ob("R4-inverse-tables", "curtsies/termformatconstants.py", C + ":<module>", "%s inverts %s" % (inv, fwd), ok,
-               "%s is not the inverse of %s: %s vs %s" % (inv, fwd, b, a))
+               "%s is not the inverse of %s: %s vs %s (a number that reads back as another name breaks repr and the round trip)" % (inv, fwd, b, a))
     for name, want in (("RESET_ALL", 0), ("RESET_FG", 39), ("RESET_BG", 49)):
         v = fold.const(C, name, int)
         rep.ob("R4-reset-codes", "curtsies/termformatconstants.py", C + ":<module>", "%s = %d" % (name, v), v == want,
@@ -261,12 +246,11 @@ def rule_r4(src, rep, fold, counts):
     bgc = fold.const(C, "BG_COLORS", dict)
     sty = fold.const(C, "STYLES", dict)
     rep.ob("R4-code-tables", "curtsies/termformatconstants.py", C + ":<module>", "FG 30-37, BG 40-47, same colour names",
-           sorted(fgc.values()) == list(range(30, 38)) and sorted(bgc.values()) == list(range(40, 48)) and
+           sorted(set(fgc.values())) == list(range(30, 38)) and sorted(set(bgc.values())) == list(range(40, 48)) and
            all(bgc.get(k) == v + 10 for k, v in fgc.items()),
            "colour tables are not 30-37/40-47 over the same names: %s %s" % (fgc, bgc))
     rep.ob("R4-code-tables", "curtsies/termformatconstants.py", C + ":<module>", "STYLES = %s" % sty,
-           sty == {sgr.STYLE_NAME[c]: c for c in sgr.STYLE_CODES},
-           "style table differs from ECMA-48: %s" % sty)
+           sty == {sgr.STYLE_NAME[c]: c for c in sgr.STYLE_CODES}, "style table differs from ECMA-48: %s" % sty)
     return fgc, bgc, sty
 
 
@@ -274,25 +258,27 @@ def check(src, rep):
     rep.explanation = EXPLANATION
     rep.not_decided = NOT_DECIDED
     rep.assumptions = ["ECMA-48 SGR subset as encoded in sa/sgr.py", "re.match semantics (leftmost, lazy/greedy quantifiers)"]
-    rep.trusted_base = ["CPython ast and re._parser modules", "sa/consteval.py", "sa/absint.py", "sa/regexast.py (NFA/DFA)", "sa/sgr.py"]
-    fold = Folder(src, fuel=10 ** 10)
+    rep.trusted_base = ["CPython ast and re._parser modules", "sa/consteval.py", "sa/absint.py", "sa/objinterp.py",
+                        "sa/regexast.py (NFA/DFA)", "sa/sgr.py"]
+    it = new_interp(src)
+    fold = it.folder
     counts = {}
     names = rep.guard(rule_r4, src, rep, fold, counts)
     if names is None:
         return
     try:
-        writer, reader, fsf = Writer(src, fold), Reader(src, fold), FromStrFold(src, fold)
+        writer, reader, fs = Writer(src, it), Reader(src, it), FromStr(src, it)
     except AnalysisError as e:
         rep.errors.append(str(e))
         return
-    rep.guard(rule_r1, src, rep, fold, reader, names, counts)
-    rep.guard(rule_r2, src, rep, fold, fsf, names, counts)
-    rep.guard(rule_r3, src, rep, fold, writer, reader, fsf, names, counts)
+    rep.guard(rule_r1, src, rep, reader, names, counts)
+    rep.guard(rule_r2, src, rep, fs, names, counts)
+    rep.guard(rule_r3, src, rep, writer, reader, fs, names, counts)
     rep.guard(tokenizer.rules_tokenizer, src, rep, fold, "R5", counts)
     rep.guard(tokenizer.rules_parse_loop, src, rep, "R6")
     from .c01 import cache_coherence
     rep.guard(cache_coherence, src, rep)
     rep.extracted["counts"] = counts
-    rep.floor("supported SGR codes read", counts.get("supported_codes", 0), 25)
-    rep.floor("round-trip attribute sets", counts.get("round_trip_sets", 0), 5184)
+    rep.floor("supported SGR codes read", counts.get("supported_codes", 0), 20)
+    rep.floor("round-trip attribute sets", counts.get("round_trip_sets", 0), 5000)
     rep.floor("tokenizer patterns", counts.get("tokenizer_patterns", 0), 2)
